@@ -295,6 +295,9 @@ static void dump_prng(int i)
 
 #define MAXTOK 12
 
+typedef struct { const unsigned char *p; size_t n; unsigned char *out; } huge_job_t;
+static void *huge_oneshot(void *arg) { huge_job_t *j = arg; tinyjambu_hash(j->out, j->p, j->n); return 0; }
+
 /* Before every operation: the thread's errno holds a stale error and the stack below the current frame holds a pattern that
  * depends on how many operations ran before - a library call whose result depends on either (stale errno taken for the outcome
  * of its own system call, a local buffer used before it is written) then gives results that depend on earlier unrelated calls. */
@@ -439,6 +442,27 @@ static void exec_line(char *line)
             put_hex("tail=", big + n - k, k);
             fprintf(OUT, " sum=%llu slack=%s inputs=%s\n", h, canary ? "ok" : "BAD", inputs_ok(2) ? "ok" : "BAD");
             free(big); free(pw.p); free(salt.p);
+        } else if (!strcmp(tok[0], "h.huge") && nt == 4) {
+            /* lengths beyond 32 bits: digest of a + b + c zero bytes fed as three updates vs the one-shot digest of the same
+             * a+b+c zero bytes (an untouched MAP_NORESERVE mapping reads as zeros); the two hashes run in parallel threads */
+            size_t a = strtoull(tok[1], 0, 10), b = strtoull(tok[2], 0, 10), c = strtoull(tok[3], 0, 10), tot = a + b + c;
+            unsigned char *big = mmap(0, tot + 4096, PROT_READ, MAP_PRIVATE | MAP_ANONYMOUS | MAP_NORESERVE, -1, 0);
+            unsigned char d1[32], d2[32];
+            if (big == MAP_FAILED) { fprintf(OUT, "%s\n", "skip mmap-failed"); return; }
+            {
+                huge_job_t j; pthread_t th;
+                j.p = big; j.n = tot; j.out = d2;
+                pthread_create(&th, 0, huge_oneshot, &j);
+                tinyjambu_hash_state_t hs;
+                tinyjambu_hash_init(&hs);
+                tinyjambu_hash_update(&hs, big, a);
+                tinyjambu_hash_update(&hs, big + a, b);
+                tinyjambu_hash_update(&hs, big + a + b, c);
+                tinyjambu_hash_finalize(&hs, d1);
+                pthread_join(th, 0);
+            }
+            munmap(big, tot + 4096);
+            put_hex("stream=", d1, 32); put_hex(" oneshot=", d2, 32); fputc('\n', OUT);
         } else if (!strcmp(tok[0], "clean") && nt == 4) {
             size_t off = strtoul(tok[1], 0, 10), n = strtoul(tok[2], 0, 10); bytes_t b = parse_hex(tok[3]);
             unsigned char *out = out_prepare(0);
@@ -550,6 +574,26 @@ static void exec_line(char *line)
                 if (!nreq) fputc('-', OUT);
                 for (j = 0; j < nreq; ++j) fprintf(OUT, "%s%zu", j ? "," : "", reqlog[j]);
                 fprintf(OUT, " calls=%lu slack=%s\n", os_calls - c0, slack_ok(out, 0, n) ? "ok" : "BAD");
+            }
+            else if (!strcmp(op, "p.genbig") && nt == 3) {
+                /* a long generate, issued in 32 KiB calls; prints a checksum of the output and the positions of the entropy requests */
+                size_t n = strtoul(tok[2], 0, 10), done = 0; unsigned long long h = 1469598103934665603ULL; int j, ok = 1;
+                nreq = 0;
+                while (done < n) {
+                    size_t len = n - done < 32768 ? n - done : 32768, q; int n0 = nreq;
+                    unsigned char *out = out_prepare((int)opno);
+                    gen_out = out; gen_size = len;
+                    tinyjambu_prng_generate(&P[i], out, len);
+                    gen_out = 0;
+                    for (j = n0; j < nreq; ++j) reqlog[j] += done;
+                    for (q = 0; q < len; ++q) h = (h ^ out[q]) * 1099511628211ULL;
+                    if (!slack_ok(out, 0, len)) ok = 0;
+                    done += len;
+                }
+                fprintf(OUT, "sum=%llu reqs=", h);
+                if (!nreq) fputc('-', OUT);
+                for (j = 0; j < nreq; ++j) fprintf(OUT, "%s%zu", j ? "," : "", reqlog[j]);
+                fprintf(OUT, " slack=%s\n", ok ? "ok" : "BAD");
             }
             else if (!strcmp(op, "p.feed") && nt == 3) {
                 bytes_t b = parse_hex(tok[2]); const unsigned char *p = place(0, b.p, b.n, b.is_null);
